@@ -24,4 +24,9 @@ answers with PUBCOMP unless manual acknowledgement is on - whether the id was kn
 `c03_pubcomp`, `c03_pubrel_once`, `c03_manual`; seeded X30, C03e, X43 changed exactly this) -/
 theorem session_handlePubrel_shape : Gen.handlePubrelShapeOk = true := rfl
 
+/-- T1: the QoS dispatch of `Client._handle_publish`: QoS 0 delivers; QoS 1 delivers first and acknowledges afterwards, unless
+manual acknowledgement is on; QoS 2 answers PUBREC and stores the message without delivering it (C03: `c03_qos1`, `c03_pubrec`,
+`c03_manual`) -/
+theorem session_handlePublish_shape : Gen.handlePublishShapeOk = true := rfl
+
 end Paho
